@@ -46,8 +46,10 @@ class CaseBuilder:
         if expiry is None: expiry = 2000 + self.r.below(500)
         if rel is None: rel = pol[2] + self.r.below(500)
         if isinstance(amount_tlv, bytes): amount_tlv = {"hex": amount_tlv.hex()}
+        # total == "absent": a non-MPP payment, the onion carries no total_msat (the declared total is then forward_msat)
         e = {"e": "htlc", "_inv": inv, "_amount_tlv": amount_tlv, "_raw": raw_payload,
-             "req": request(b"", raw_hash if raw_hash is not None else phash(h), amt, expiry, rel, self.next_id, forward=(amt if forward == "amt" else forward), total=total, scid=scid)}
+             "req": request(b"", raw_hash if raw_hash is not None else phash(h), amt, expiry, rel, self.next_id, forward=(amt if forward == "amt" else forward),
+                            total=(None if total == "absent" else total), scid=scid)}
         self.next_id += 1
         return e
 
@@ -178,6 +180,9 @@ def story_case(r, ending=None, npieces=None, reject=None, nhash=1, heights=True,
     total = need + r.choice([0, 0, 1, 5000])
     pieces = split_amount(r, total, npieces or (1 + r.below(3)))
     hts = [b.htlc(inv, p, total, expiry=r.choice([1500, 2000, 2400, 70000]), rel=pol[2] + r.below(600), amount_tlv=atlv) for p in pieces]
+    if len(pieces) == 1 and r.chance(1, 3):
+        # the ordinary non-MPP shape: no total_msat in the onion
+        hts = [b.htlc(inv, total, "absent", expiry=r.choice([1500, 2000, 2400, 70000]), rel=pol[2] + r.below(600), amount_tlv=atlv, forward=total)]
     if reject:
         kind, pos = reject
         if kind == "other_amount" and amountless:
@@ -189,7 +194,9 @@ def story_case(r, ending=None, npieces=None, reject=None, nhash=1, heights=True,
                 hts = [b.htlc(inv, p, total, expiry=r.choice([1500, 2000, 2400, 70000]), rel=pol[2] + r.below(600), amount_tlv=atlv) for p in pieces]
             hts.insert(1 + pos % max(1, len(hts) - 1), x); reject = None
         if kind == "low_expiry": x = b.htlc(inv, r.choice([1000, total]), total, rel=r.choice([max(0, pol[2] - 1 - r.below(5)), 0, -1, -1 - r.below(1000), -2**31, -2**32 + 5, -2**63]))
-        elif kind == "low_total": x = b.htlc(inv, 1000, max(0, need - 1 - r.below(3)))
+        elif kind == "low_total":
+            if r.chance(1, 2): x = b.htlc(inv, r.choice([total, need, need + 1000]), "absent", forward=max(0, need - 1 - r.below(3)))
+            else: x = b.htlc(inv, 1000, max(0, need - 1 - r.below(3)))
         elif kind == "other_invoice": x = b.htlc(b.add_invoice(0, amount, ts=77), 1000, total)
         elif kind == "near_hash":
             # an HTLC whose payment hash is NOT the invoice's but agrees with it under weak comparisons, fully funded on its own
